@@ -259,6 +259,11 @@ def shape_stage(ctx, res, nfonts, ntexts, as_failure=False, gen_kw=None, fontgen
                 # the hypothesis of no_write_through_a_null_cursor (every rule's code passes the loader's cursor tests), evaluated by the
                 # model on this font: it must hold of every font the real loader accepted
                 res.count("shape:rule-code-passes-cursor-tests=" + curok)
+                if curok == "1" and (m or "").startswith("fault"):
+                    # pipeline_never_faults: with its hypotheses (evaluated by the driver: curok=1) the model cannot stop with an error
+                    res.failures.append({"harness": "h_seg", "mode": "shape", "line": ml, "impl": ibody[:300], "model": m[:300], "exe_args": [], "tag": "total",
+                                         "font_hex": open(fonts[int(l.split("=")[1].split(",")[0])], "rb").read().hex(), "api_line": l,
+                                         "why": "the pipeline model stops with an error on a font that meets the hypotheses of pipeline_never_faults: " + m[:120]})
                 if curok != "1" and not ibody.startswith("noface") and not i.startswith(("CRASH", "fault")):
                     res.failures.append({"harness": "h_seg", "mode": "shape", "line": ml, "impl": ibody[:300], "model": (m or "")[:300], "exe_args": [], "tag": "cursor-hyp",
                                          "font_hex": open(fonts[int(l.split("=")[1].split(",")[0])], "rb").read().hex(), "api_line": l,
